@@ -237,6 +237,46 @@ def disable_clauses(text, labels):
     return "\n".join(out), n
 
 
+SRC_DIRS = ["proxy_agent/src", "proxy_agent_shared/src", "proxy_agent_extension/src", "proxy_agent_setup/src", "linux-ebpf"]
+
+
+def uncovered_fingerprint(repo_root, results):
+    """per source file: sha1 of the text that the property's proof machinery does NOT see = the file minus the spans that are in
+    the property's units with verified bodies / verbatim definitions (stub bodies and E9-redirected expressions are NOT seen).
+    Used to tell whether an edited tree differs from the pinned tree OUTSIDE the reach of the proofs (contracts/coverage_baseline.json)."""
+    import hashlib
+    cov, holes, whole = {}, {}, set()
+    for r in results:
+        u = r.get("unit_obj")
+        if u is not None:
+            for (rel, a, b) in getattr(u, "covered", []):
+                cov.setdefault(rel, []).append((a, b))
+            for (rel, a, b) in getattr(u, "holes", []):
+                holes.setdefault(rel, []).append((a, b))
+        for rel in r.get("covered_files", []):
+            whole.add(rel)
+    out = {}
+    for d in SRC_DIRS:
+        for dp, dn, fns in os.walk(os.path.join(repo_root, d)):
+            for f in sorted(fns):
+                if not f.endswith((".rs", ".c", ".h")):
+                    continue
+                full = os.path.join(dp, f)
+                rel = os.path.relpath(full, repo_root)
+                if rel in whole:
+                    continue
+                data = open(full, "rb").read()
+                keep = bytearray(b"\x01" * len(data))
+                for (a, b) in cov.get(rel, []):
+                    keep[a:b] = b"\x00" * (b - a)
+                for (a, b) in holes.get(rel, []):
+                    keep[a:b] = b"\x01" * (b - a)
+                rest = bytes(c for c, k in zip(data, keep) if k)
+                rest = b" ".join(rest.split())     # white-space changes do not count
+                out[rel] = hashlib.sha1(rest).hexdigest()[:16]
+    return out
+
+
 def publish_rundir():
     """move this process' generated units and diagnostics to build/units/ (last run wins; atomic per file)"""
     try:
@@ -508,7 +548,19 @@ def main():
     lines = []
     # bounded executable companions (tools/witness.py): always in the thorough tier; as a stand-in when the proof is UNDECIDED
     wit_runs = []
-    if ((undecided and not violations) or tier == "thorough") and not os.environ.get("VERIF_NO_WITNESS"):   # VERIF_NO_WITNESS: dev aid (proof side only)
+    # does the tree under test differ from the pinned tree in text the proofs of THIS property do not see (code not under contract,
+    # stub bodies, E9-redirected expressions)? Then the proofs cannot notice the edit: the bounded witnesses are consulted too.
+    outside = []
+    try:
+        base = json.load(open(os.path.join(VERIF, "contracts", "coverage_baseline.json"))).get(pid)
+        if base is not None and not undecided:
+            fp = uncovered_fingerprint(os.path.abspath(os.environ.get("VERIF_REPO", "/repo")), results)
+            outside = sorted(k for k in set(fp) | set(base) if fp.get(k) != base.get(k))
+    except Exception as e:
+        outside = []
+    if outside:
+        print("note: property=%s the tree differs from the pinned tree outside the text under contract for this property (%s%s): bounded witnesses consulted" % (pid, ", ".join(outside[:4]), " ..." if len(outside) > 4 else ""))
+    if ((undecided and not violations) or tier == "thorough" or outside) and not os.environ.get("VERIF_NO_WITNESS"):   # VERIF_NO_WITNESS: dev aid (proof side only)
         try:
             import witness as W
             wit_runs = W.run_property(pid)
